@@ -200,6 +200,43 @@ def analyse(facts):
                             if r.get("k") == "index" and is_self_field(r["e"]) and r["e"]["name"] in cov:
                                 read(r["e"]["name"], sp.Integer(0), take if take is not None else total[r["e"]["name"]], e, "output sum")
                         continue
+            # for (spec, filt) in self.X[..K].iter_mut().zip(self.filter_f.iter()) { *spec *= filt }      (the for_each form written as a loop)
+            if len(body) == 1 and body[0]["k"] in ("semi", "expr") and body[0]["e"].get("k") == "opassign" and body[0]["e"]["op"] == "*" and len(names) == 2 \
+                    and it.get("k") == "mcall" and it["name"] == "zip":
+                x = it["recv"]
+                take = None
+                while x.get("k") == "mcall":
+                    if x["name"] == "take":
+                        take = alg.conv(x["args"][0])
+                    x = x["recv"]
+                base = slice_range(x, alg, total)
+                if base is not None and base[0] in cov:
+                    hi = base[2] if take is None else base[1] + take
+                    read(base[0], base[1], hi, e, "multiply by filter spectrum")
+                    scale = {"take": hi - base[1], "zipped": show(it["args"][0]), "node": e}
+                    continue
+            # for ((item, out), over) in wave_out.iter_mut().zip(self.output_buf[..K].iter()).zip(overlap.iter()) { *item = *out + *over }
+            if len(body) == 1 and body[0]["k"] in ("semi", "expr") and body[0]["e"].get("k") == "assign" and it.get("k") == "mcall" and it["name"] == "zip" \
+                    and it["recv"].get("k") == "mcall" and it["recv"]["name"] == "zip" and len(names) == 3:
+                def strip_iter(z):
+                    while z.get("k") == "mcall" and z["name"] in ("iter", "iter_mut"):
+                        z = z["recv"]
+                    return z
+                dst, a_, b_ = strip_iter(it["recv"]["recv"]), strip_iter(it["recv"]["args"][0]), strip_iter(it["args"][0])
+                asg = body[0]["e"]
+                rhs_names = sorted(y["p"] for y in walk(asg["r"]) if y.get("k") == "path")
+                srcs = {names[1]: a_, names[2]: b_}
+                if is_path(dst, wave_out) and asg["l"].get("k") == "un" and is_path(asg["l"]["e"], names[0]) and asg["r"].get("k") == "bin" and asg["r"]["op"] == "+" \
+                        and rhs_names == sorted([names[1], names[2]]):
+                    ob_ = [z for z in (a_, b_) if slice_range(z, alg, total) is not None and slice_range(z, alg, total)[0] == "output_buf"]
+                    ov_ = [z for z in (a_, b_) if is_path(z, overlap)]
+                    if len(ob_) == 1 and len(ov_) == 1:
+                        sr = slice_range(ob_[0], alg, total)
+                        take = sr[2] - sr[1]
+                        synth = ir.N("bin", op="+", l=ir.N("index", e=ir.self_field("output_buf"), i=ir.path("n"), ln=0), r=ir.N("index", e=ir.path(overlap), i=ir.path("n"), ln=0), ln=0)
+                        out_write = {"take": take, "rhs": synth, "idx": "n", "node": e}
+                        read("output_buf", sr[1], sr[2], e, "output sum")
+                        continue
             raise ir.AnchorMissing("resample_unit: unrecognised loop at line %s" % e.get("ln"))
         # self.fft.process_with_scratch(&mut A, &mut B, &mut S).unwrap()
         m = e
